@@ -62,6 +62,13 @@ def count_true(bs):
     return SUM([BOOL2INT(b) for b in bs])
 
 
+FAKE_MARKERS = ("'Obj' object", "'Fake", "'NoOp' object", "'Stub", "'Rec' object", "'Al' object", "'EmptyDB' object", "FakeDB")
+
+
+class HarnessGap(BaseException):
+    """a stand-in object of the harness lacks something the code now uses (reported as a harness error, exit 3)"""
+
+
 def call(g, fn, *args, allowed=(), label=None, exclude=None, **kw):
     """call repository code; an exception on a feasible path under the stated precondition is a
     violation unless its type is listed as allowed (then the path ends quietly)"""
@@ -71,6 +78,9 @@ def call(g, fn, *args, allowed=(), label=None, exclude=None, **kw):
     except allowed:
         raise PathAbort()
     except Exception as e:  # noqa - BaseException is engine control flow
+        if isinstance(e, (AttributeError, TypeError)) and any(t in str(e) for t in FAKE_MARKERS):
+            # the code asked a stand-in object for something it does not model: a gap of the harness, not a property violation
+            raise HarnessGap("%s: %s" % (type(e).__name__, e))
         name = getattr(fn, "__name__", None) or getattr(getattr(fn, "func", None), "__name__", "call")
         g.fail(label or ("%s raised %s" % (name, type(e).__name__)),
                detail={"exception": "%s: %s" % (type(e).__name__, str(e)[:200])}, exclude=exclude)
